@@ -80,6 +80,9 @@ func verifPlan(kind string, chunked bool, burst bool) zzverif.Plan {
 		return zzverif.Plan{Kind: "reset_after", Status: 500, N: verifN, K: verifK, Chunked: chunked}
 	case "hdr_then_reset":
 		return zzverif.Plan{Kind: kind, Status: 200, N: verifN, K: 0, Chunked: chunked}
+	case "cabort":
+		// a healthy but slow answer: the client walks away after the first token
+		return zzverif.Plan{Kind: "ok", Status: 200, N: verifN, Chunked: chunked, GapMs: 120}
 	default:
 		return zzverif.Plan{Kind: kind}
 	}
@@ -289,7 +292,7 @@ func TestVerif_Dispatch(t *testing.T) {
 		emit("Health", "st", stk.statuses())
 		chunked := sc.Framing == "chunked"
 		var plans sync.Map // backend name -> kind for the current step
-		var inBurst atomic.Bool
+		var inBurst, abortStep atomic.Bool
 		var curRoute atomic.Value
 		curRoute.Store("proxy")
 		for _, be := range stk.backends {
@@ -299,13 +302,16 @@ func TestVerif_Dispatch(t *testing.T) {
 				if v, ok := plans.Load(be.Name); ok {
 					kind = v.(string)
 				}
+				if kind == "ok" && abortStep.Load() {
+					kind = "cabort" // the client of this step walks away: every healthy answer of the step is a slow one
+				}
 				p := verifPlanFor(curRoute.Load().(string), kind, chunked, inBurst.Load())
 				pst := p.Status
 				if kind == "http_cut" {
 					kind = "reset_after" // the specification knows it as a reset after the response started, with status 500
 				}
 				emit("BackendRecv", "r", r.ReqID, "e", be.Name, "a", r.Attempt, "kind", kind, "pst", pst,
-					"pn", p.N, "pk", p.K, "pb", len(p.Body), "sig", verifSig(r), "gs", stk.gaugeOf(be), "target", r.Target)
+					"pn", p.N, "pk", p.K, "pb", len(p.Body), "sig", verifSig(r), "gs", stk.gaugeOf(be), "go", stk.gaugeOthers(be), "target", r.Target)
 				return p
 			}
 		}
@@ -321,6 +327,11 @@ func TestVerif_Dispatch(t *testing.T) {
 					n = stp.N
 				}
 				inBurst.Store(stp.Op == "burst")
+				aborting := false
+				for _, k := range stp.Plans {
+					aborting = aborting || k == "cabort"
+				}
+				abortStep.Store(aborting)
 				for _, be := range stk.backends {
 					kind := stp.Plans[be.Name]
 					plans.Store(be.Name, kind)
@@ -359,8 +370,19 @@ func TestVerif_Dispatch(t *testing.T) {
 					go func(rid string) {
 						defer wg.Done()
 						target, hdrs, body := verifRequestFor(route, rid, model)
-						res := zzverif.Do(stk.addr, &zzverif.Req{Method: "POST", Target: target, Headers: hdrs, Body: []byte(body),
-							Chunked: chunked, ChunkSz: 17, Timeout: 25 * time.Second})
+						rq := &zzverif.Req{Method: "POST", Target: target, Headers: hdrs, Body: []byte(body),
+							Chunked: chunked, ChunkSz: 17, Timeout: 25 * time.Second}
+						if aborting {
+							rq.AbortAfter = 1 // hang up as soon as any of the body has arrived
+						}
+						res := zzverif.Do(stk.addr, rq)
+						if aborting {
+							// olla notices the hang-up on its own time: let the attempt be wound up before the next step
+							// samples gauges (a gauge that never comes back is still caught at the Stats step)
+							for t0 := time.Now(); time.Since(t0) < 3*time.Second && stk.gaugeSum() > 0; {
+								time.Sleep(5 * time.Millisecond)
+							}
+						}
 						// the gauge decrement and the repository write may trail the client's last byte
 						time.Sleep(15 * time.Millisecond)
 						kv := append([]any{"r", rid}, verifClientView(res)...)
